@@ -58,6 +58,11 @@ func (a *Analysis) CheckC12(rep *Report) {
 		rep.Ob("T6-one-registrar-one-lookup", t.Name, len(t.Registrar) <= 1 && len(t.Lookups) >= 1, pos, fmt.Sprintf("%d functions update the table, %d read it", len(t.Registrar), len(t.Lookups)))
 		// T2
 		for _, lf := range t.Lookups {
+			if a.U.IsCodecMethod(lf) {
+				// an Encode/Decode that hands the table to a shared helper (`decodeDynamic(buf, key, table, &field)`): what
+				// it does with a hit and a miss is judged by T3/T4 on its own paths
+				continue
+			}
 			paths, err := a.engineFor(lf).AnalyzeRoot(lf, nil)
 			name := FuncName(lf)
 			if !rep.Ob("T2-analysable", name, err == nil, a.P.Pos(lf.Pos()), fmt.Sprint(err)) {
